@@ -1546,7 +1546,9 @@ _ical_pull(struct ical_parser_s p[static 1U])
 		if (LIKELY(*BP != ' ' && *BP != '\t')) {
 			goto proc;
 		}
-		/* just get on with it */
+		/* just get on with it, that's the whitespace of the
+		 * line fold whose newline we've seen last time */
+		BI++;
 	}
 chop_more:
 	/* chop _p->buf into lines (possibly multilines) */
